@@ -68,6 +68,9 @@ Fixpoint qlist_eqb (a b : list Q) : bool :=
   | x :: a', y :: b' => Qeq_bool x y && qlist_eqb a' b'
   | _, _ => false
   end.
+Fixpoint qins (x : Q) (l : list Q) : list Q :=
+  match l with [] => [x] | y :: t => if Qle_bool x y then x :: l else y :: qins x t end.
+Definition qsort (l : list Q) : list Q := fold_right qins [] l.
 EOV
     cat "$T/examples.txt"; } > "$T/SemTest.v"
   okc=1
